@@ -5,6 +5,7 @@ RT = ["vh_rt.c"]
 from . import c20 as _c20
 from . import c19 as _c19
 from . import c14tla as _c14tla
+from . import c02b
 
 
 def _cov(rule, extra=None):
@@ -245,17 +246,22 @@ CHECKS["C16"] = dict(
 
 CHECKS["C02"] = dict(
     level="exploration",
-    jobs=lambda tier: [dict(name="c02", variant="o2", sources=["e_c02.c"] + RT, libs=["-lgcrypt"])],
+    jobs=lambda tier: [dict(name="c02", variant="o2", sources=["e_c02.c"] + RT, libs=["-lgcrypt"]),
+                       dict(name="c02bcrypt", variant="pic", script=c02b.run)],
     coverage=_cov("about 560 settings over the 16 methods (every salt length, cost spellings min/default-explicit/others, yescrypt flavours "
                   "0/WORM/RW with p,t fields, scrypt N 2^2..2^10 x r{1,2,8} x p{1,2,3}, bsdicrypt counts x single-character salt changes, bcrypt 4 "
                   "subtypes x cost 4..6); primary settings x (36 boundary lengths x 4 fills + every length 0..511 x 2 fills + small scope + 8-bit "
                   "specials), other settings x 12 boundary lengths. Every result is compared with the released libxcrypt 4.4.33 and, for md5crypt, "
                   "sha256crypt, sha512crypt, sha1crypt, NT, descrypt, bigcrypt, bsdicrypt, scrypt, yescrypt flavour 0 and the gost-yescrypt outer "
-                  "layer, with an independent specification-level model; distinct_nontrivial = distinct successful hash strings"),
+                  "layer, with an independent specification-level model; job c02bcrypt: 4 bcrypt subtypes x costs x 2-6 salts x (every phrase length "
+                  "0..89 thorough / 33 boundary lengths quick, 3 fills incl. all-8-bit and mixed, an 8-bit byte at every position of keys of "
+                  "length 1..8, the published sign-extension vectors) against a Python eksblowfish model incl. the $2x$ bug and the $2a$ "
+                  "counter-measure; distinct_nontrivial = distinct successful hash strings"),
     assumptions=["libxcrypt 4.4.33 as installed in the image is the cross-release reference; libgcrypt 1.10 provides the digests for the models",
-                 "yescrypt RW/WORM flavours, sunmd5 and bcrypt rest on the released library only (identical across releases, not re-derived from the papers)",
+                 "yescrypt RW/WORM flavours and sunmd5 rest on the released library only (identical across releases, not re-derived from the papers)",
+                 "bcrypt model: ref/ref_bcrypt.py, boxes derived from pi at run time, checked against six published crypt_blowfish vectors on every run; costs 4..5 quick, 4..7 thorough",
                  "the bit-level reference DES is cross-checked against libgcrypt's DES on every run"],
-    nonvacuous=lambda s, t: None if s.get("release_comparisons", 0) > 20000 and s.get("model_comparisons", 0) > 10000 else "too few comparisons",
+    nonvacuous=lambda s, t: None if s.get("release_comparisons", 0) > 20000 and s.get("model_comparisons", 0) > 10000 and s.get("bcrypt_model_comparisons", 0) > 2000 and s.get("bcrypt_model_2a_countermeasure_cases", 0) > 3 else "too few comparisons",
     deadline=dict(quick=400, thorough=1700),
     manifest=dict(
         text="Bounded exhaustive exploration of the (phrase length, byte fill, salt length, cost spelling) grid for all 16 methods, every result "
